@@ -227,4 +227,17 @@ func main() {
 	fmt.Printf("Definition pkg_assigns : list (string * string * string) := [\n  %s].\n", strings.Join(assignLines, ";\n  "))
 	fmt.Printf("Definition write_sites : list (string * string * string) := [\n  %s].\n", strings.Join(writeLines, ";\n  "))
 	fmt.Printf("Definition go_stmts : list (string * string) := [\n  %s].\n", strings.Join(goLines, ";\n  "))
+	// methods named like the ten operators, by receiver type (which typed Operation overrides what)
+	var methLines []string
+	opNames := map[string]bool{"EQ": true, "NE": true, "GT": true, "LT": true, "GE": true, "LE": true, "CO": true, "SW": true, "EW": true, "IN": true}
+	for _, ft := range files {
+		for _, d := range ft.f.Decls {
+			fd, ok := d.(*ast.FuncDecl)
+			if !ok || fd.Recv == nil || len(fd.Recv.List) == 0 || !opNames[fd.Name.Name] {
+				continue
+			}
+			methLines = append(methLines, fmt.Sprintf("(%s, %s)", q(strings.TrimPrefix(text(fd.Recv.List[0].Type), "*")), q(fd.Name.Name)))
+		}
+	}
+	fmt.Printf("Definition op_methods : list (string * string) := [\n  %s].\n", strings.Join(methLines, ";\n  "))
 }
